@@ -46,7 +46,7 @@ func genKeys(rng *vk.Rand, n int, taken map[string]bool) []string {
 				id = string(rs[:rng.Range(1, len(rs)-1)])
 			}
 		case numeric:
-			id = strconv.Itoa(rng.Intn(3*n + 10))
+			id = strconv.Itoa(rng.Intn(3*n + 10 + 2*tries))
 		default:
 			id = randKey(rng, pool, 1, 4+tries/200)
 		}
